@@ -159,7 +159,7 @@ def run(tier, only=None):
         for sig, p in r["bad"]:
             R.violation(sig, {"k": r["k"], "detail": p, "case": r["case"]})
     depth = 2 if tier == "quick" else 3
-    behs, types = lawcheck.behaviours(R, ["Mach0", "ScaleV", "ScaleLen", "Mirror", "Translate"], "{c \\in BaseClasses : ~c.compressible /\\ c.symflow /\\ ~c.ground}", depth, factors="{<<2, 1>>}", must_contain={"Mach0"})
+    behs, types = lawcheck.behaviours(R, ["Mach0", "ScaleV", "ScaleLen", "Mirror", "Translate"], "{c \\in BaseClasses : ~c.compressible /\\ c.symflow /\\ ~c.ground}", depth, factors="{<<2, 1>>}", must_contain={"Mach0"}, keep=150 if tier == "quick" else 1500)
     lawcheck.replay_all(R, "C09", behs, limit=150 if tier == "quick" else 1500)
     for r in check_exc(pmap(_cont_job, range(4 if tier == "quick" else 16))):
         R.case(["continuity", r["k"]], True, section="continuity")
